@@ -2,7 +2,7 @@ SPECIFICATION Spec
 CONSTANTS
   Dim = 2
   MaxNodes = 3
-  MinNodes = 2
+  MinNodes = 3
   Widths = {3}
   LinWidths = {2}
   Ks = {3}
@@ -16,8 +16,8 @@ CONSTANTS
   AllowReuse = FALSE
   PMs = {"zeros", "reflect", "replicate", "circular"}
   Ds = {1, 2}
-  Ss = {1, 2}
-  Biases = {FALSE, TRUE}
+  Ss = {1}
+  Biases = {TRUE}
   Batches = {1, 4}
   Alphabet = "classic"
   FwdImpl = "plain"
